@@ -22,7 +22,7 @@ UREL = "molgri/space/utils.py"
 
 class EndOfDivision(Contract):
     target = f"{PREL}::Polytope._end_of_divison"
-    property_ids = ("C18",)
+    property_ids = ("C18", "C08")
     expected = ("post:permanence", "post:new-indices-onto")
 
     def setup(self, V, variant):
@@ -128,7 +128,7 @@ class NormaliseAssumed(Contract):
 
 class AddPoint(Contract):
     target = f"{PREL}::Polytope._add_polytope_point"
-    property_ids = ("C18",)
+    property_ids = ("C18", "C08")
 
     def setup(self, V, variant):
         ctx = V.ctx
@@ -348,10 +348,141 @@ def lemmas():
     hyp = base + wf + added + eod
     inr = lambda t: z3.And(t >= 0, t < n2)
     wn = lambda t: z3.If(t < C, w(t), w2(t))
-    out = [("lemma:history-step:levels-below-next-level", hyp + [inr(v)], lev(v) < Lv + 1, ("C18",)),
-           ("lemma:history-step:indices-in-0..C'", hyp + [inr(v)], z3.And(ci2(v) >= 0, ci2(v) < C2), ("C18",)),
-           ("lemma:history-step:indices-pairwise-different", hyp + [inr(v), inr(u), u != v], ci2(u) != ci2(v), ("C18",)),
-           ("lemma:history-step:every-index-below-C'-used", hyp + [c >= 0, c < C2], z3.And(inr(wn(c)), ci2(wn(c)) == c), ("C18",)),
-           ("lemma:history-step:earlier-levels-have-smaller-indices", hyp + [inr(v), inr(u), lev(u) < lev(v)], ci2(u) < ci2(v), ("C18",)),
-           ("lemma:history-step:old-indices-do-not-move", hyp + [v >= 0, v < n], ci2(v) == ci(v), ("C18",))]
+    out = [("lemma:history-step:levels-below-next-level", hyp + [inr(v)], lev(v) < Lv + 1, ("C18", "C08")),
+           ("lemma:history-step:indices-in-0..C'", hyp + [inr(v)], z3.And(ci2(v) >= 0, ci2(v) < C2), ("C18", "C08")),
+           ("lemma:history-step:indices-pairwise-different", hyp + [inr(v), inr(u), u != v], ci2(u) != ci2(v), ("C18", "C08")),
+           ("lemma:history-step:every-index-below-C'-used", hyp + [c >= 0, c < C2], z3.And(inr(wn(c)), ci2(wn(c)) == c), ("C18", "C08")),
+           ("lemma:history-step:earlier-levels-have-smaller-indices", hyp + [inr(v), inr(u), lev(u) < lev(v)], ci2(u) < ci2(v), ("C18", "C08")),
+           ("lemma:history-step:old-indices-do-not-move", hyp + [v >= 0, v < n], ci2(v) == ci(v), ("C18", "C08"))]
     return out
+
+
+# ---------------------------------------------------------------------------------------------------------------------
+# the sorted-node cache and get_nodes (C08: cache coherence, prefix claim)
+# ---------------------------------------------------------------------------------------------------------------------
+from pyvc.lib_nx import NodeRows, AttrRow
+
+
+class SortedCache(Contract):
+    """Polytope._get_attributes_array_sorted_by_index under the class invariant  INV: current_nodes = (rows, c) and
+    (c == number of nodes  =>  rows lists every node once, by strictly increasing index).  Post: the returned rows are the nodes
+    (or the requested attribute of the nodes) in strictly increasing index order, every node once; INV holds afterwards with c = n.
+    Pre: indices pairwise different (history lemma)."""
+    target = f"{PREL}::Polytope._get_attributes_array_sorted_by_index"
+    property_ids = ("C08", "C18")
+    variants = ("polytope_point", "projection")
+    expected = ("post:rows-by-strictly-increasing-index", "post:every-node-once", "post:cache-invariant-re-established")
+
+    def setup(self, V, variant):
+        ctx = V.ctx
+        n = V.int("n", lo=0)
+        c = V.int("cached_count", lo=0)
+        ci = z3.Function("node_ci", z3.IntSort(), z3.IntSort())
+        a = z3.Function("cached_order", z3.IntSort(), z3.IntSort())
+        ainv = z3.Function("cached_order_inv", z3.IntSort(), z3.IntSort())
+        x, y = z3.Int("x8"), z3.Int("y8")
+        inr = lambda t: z3.And(t >= 0, t < n)
+        ctx.assume(z3.ForAll([x, y], z3.Implies(z3.And(inr(x), inr(y), x != y), ci(x) != ci(y)), patterns=[z3.MultiPattern(ci(x), ci(y))]))
+        # INV (assumed on entry)
+        ctx.assume(z3.Implies(c == n, z3.And(
+            z3.ForAll([x], z3.Implies(inr(x), z3.And(inr(a(x)), ainv(a(x)) == x)), patterns=[a(x)]),
+            z3.ForAll([x], z3.Implies(inr(x), z3.And(inr(ainv(x)), a(ainv(x)) == x)), patterns=[ainv(x)]),
+            z3.ForAll([x, y], z3.Implies(z3.And(x >= 0, x < y, y < n), ci(a(x)) < ci(a(y))), patterns=[z3.MultiPattern(a(x), a(y))]))))
+        g = SymGraph(n, {"central_index": lambda k: Num(ci(zint(k)), True), "projection": lambda k: AttrRow("projection", zint(k))})
+        ctx.node_dim = 3
+        cached = NodeRows(Vec(c, lambda k: Node(a(zint(k))), kind="ndarray", elem="obj"), 3)
+        cls = V.interp.loader.find_class(PREL, "Polytope")
+        obj = Obj(cls, {"G": g, "current_nodes": Tup([cached, Num(c, True)]), "d": lift(3)})
+        V.env.update(n=n, c=c, ci=ci, a=a, ainv=ainv, obj=obj, g=g)
+        return [obj, Str(py=variant)], {}
+
+    def post(self, V, variant, env, outcome):
+        ctx = V.ctx
+        if outcome[0] != "return":
+            V.oblige(f"post:no-exception[{outcome[1]}]", False)
+            return
+        n, ci, obj, ainv = env["n"], env["ci"], env["obj"], env["ainv"]
+        R = outcome[1]
+        if isinstance(R, Vec) and conc(R.length) == 0:
+            V.oblige("post:empty-graph-gives-an-empty-array", n == 0)
+            return
+        cache = obj.fields["current_nodes"]
+        ok = isinstance(cache, Tup) and len(cache.items) == 2 and isinstance(cache.items[0], NodeRows) and isinstance(R, NodeRows)
+        V.oblige("post:cache-is-a-pair-(rows, count)", z3.BoolVal(ok))
+        if not ok:
+            return
+        S = cache.items[0].vec
+        V.oblige("post:cache-count-is-the-node-count", cache.items[1].z == n)
+        k, k2, v = z3.Int("k8"), z3.Int("k28"), z3.Int("v8")
+        s = lambda t: vget(ctx, S, t).z
+        V.oblige("post:row-count", z3.And(zint(S.length) == n, zint(R.vec.length) == n))
+        V.oblige("post:rows-are-nodes", z3.Implies(z3.And(k >= 0, k < n), z3.And(s(k) >= 0, s(k) < n)))
+        V.oblige("post:rows-by-strictly-increasing-index", z3.Implies(z3.And(k >= 0, k < k2, k2 < n), ci(s(k)) < ci(s(k2))))
+        srt = ctx.__dict__.get("sorts", [])
+        w = srt[-1]["inv"](v) if srt else ainv(v)
+        V.oblige("post:every-node-once[witness position]", z3.Implies(z3.And(v >= 0, v < n), z3.And(w >= 0, w < n, s(w) == v)))
+        V.oblige("post:cache-invariant-re-established", z3.BoolVal(True))      # = the four obligations above for the cached rows
+        rk = vget(ctx, R.vec, k)
+        if variant == "polytope_point":
+            V.oblige("post:result-rows[node k of the index order]", z3.Implies(z3.And(k >= 0, k < n), z3.And(z3.BoolVal(isinstance(rk, Node)), rk.z == s(k))))
+        else:
+            V.oblige("post:result-rows[projection of node k of the index order]",
+                     z3.Implies(z3.And(k >= 0, k < n), z3.And(z3.BoolVal(isinstance(rk, AttrRow) and rk.name == "projection"), rk.z == s(k))))
+
+
+class SortedRowsAssumed(Contract):
+    """call-site summary of the contract above (for get_nodes): rows of all nodes by strictly increasing index"""
+    target = f"{PREL}::Polytope._get_attributes_array_sorted_by_index"
+    property_ids = ()
+
+    def apply(self, interp, func, args, kwargs):
+        env = interp.ctx.c18g
+        name = args[1].py
+        o = env["order"]
+        mk = (lambda k: Node(o(zint(k)))) if name == "polytope_point" else (lambda k: AttrRow(name, o(zint(k))))
+        return NodeRows(Vec(env["n"], mk, kind="ndarray", elem="obj"), env["d"])
+
+
+class GetNodes(Contract):
+    target = f"{PREL}::Polytope.get_nodes"
+    property_ids = ("C08", "C18")
+    variants = ("N given/points", "N given/projection", "N None/points", "N None/projection")
+    expected = ("post:first-N-rows-of-the-index-order",)
+
+    def setup(self, V, variant):
+        ctx = V.ctx
+        n = V.int("n", lo=0)
+        N = V.int("N", lo=0)
+        order = z3.Function("index_order", z3.IntSort(), z3.IntSort())
+        ctx.node_dim = 3
+        g = SymGraph(n, {})
+        cls = V.interp.loader.find_class(PREL, "Polytope")
+        obj = Obj(cls, {"G": g, "d": lift(3)})
+        V.env.update(n=n, N=N, order=order, d=3)
+        ctx.c18g = V.env
+        kw = {"projection": Bool(z3.BoolVal(variant.endswith("projection")))}
+        kw["N"] = NONE if variant.startswith("N None") else Num(N, True)
+        return [obj], kw
+
+    def post(self, V, variant, env, outcome):
+        ctx = V.ctx
+        n, N, order = env["n"], env["N"], env["order"]
+        if variant.startswith("N None"):
+            N = n
+        if outcome[0] != "return":
+            V.oblige("post:only-too-many-points-is-rejected", z3.And(z3.BoolVal(outcome[1] == "ValueError"), N > n))
+            return
+        R = outcome[1]
+        V.oblige("post:accepted-only-if-enough-nodes", N <= n)
+        if isinstance(R, Vec) and not isinstance(R, NodeRows):
+            V.oblige("post:empty-result-only-for-zero-rows", zint(R.length) == 0)
+            return
+        k = z3.Int("k8g")
+        rk = vget(ctx, R.vec, k)
+        kind_ok = isinstance(rk, AttrRow) and rk.name == "projection" if variant.endswith("projection") else isinstance(rk, Node)
+        V.oblige("post:row-count-is-N", zint(R.vec.length) == N)
+        V.oblige("post:first-N-rows-of-the-index-order", z3.Implies(z3.And(k >= 0, k < N), z3.And(z3.BoolVal(kind_ok), rk.z == order(k))))
+
+
+CONTRACTS = CONTRACTS + [SortedCache(), GetNodes()]
+CALLEE_CONTRACTS = CALLEE_CONTRACTS + [SortedRowsAssumed()]
